@@ -34,6 +34,7 @@ type Prog struct {
 	SPkgs map[string]*ssa.Package
 	Files []string // non-test .go files parsed (relative)
 	Funcs []*ssa.Function
+	we    *WE
 }
 
 // Load type-checks the module in dir and builds SSA for its packages.
